@@ -181,8 +181,7 @@ func (e *Encoder) writeList(data interface{}) (int, error) {
 func (d *Decoder) ReadList(flag int32) (interface{}, error) {
 	tag, err := getTag(d.reader, flag)
 	if err != nil {
-		hlog.Debugf("reading tag err:%v", err)
-		return nil, nil //ignore
+		return nil, tagReadError(err)
 	}
 
 	if binaryTag(tag) {
@@ -254,12 +253,12 @@ func (d *Decoder) readTypedList(tag byte) (interface{}, error) {
 			return nil, newCodecError("readTypedList", err)
 		}
 
-		if item == nil {
-			break
-		}
-
 		v := EnsureRawValue(item)
 		if isVariableArr {
+			if !v.IsValid() {
+				// a null element
+				v = reflect.Zero(aryType.Elem())
+			}
 			aryValue = reflect.Append(aryValue, v)
 			holder.change(aryValue)
 		} else {
@@ -308,13 +307,18 @@ func (d *Decoder) readUntypedList(tag byte) (interface{}, error) {
 		it, err := d.ReadData()
 		if err != nil {
 			if err == io.EOF && isVariableArr {
-				continue
+				break
 			}
 			return nil, newCodecError("readUntypedList", err)
 		}
 
 		if isVariableArr {
-			aryValue = reflect.Append(aryValue, EnsureRawValue(it))
+			v := EnsureRawValue(it)
+			if !v.IsValid() {
+				// a null element
+				v = reflect.Zero(aryValue.Type().Elem())
+			}
+			aryValue = reflect.Append(aryValue, v)
 			holder.change(aryValue)
 		} else {
 			ary[j] = it
